@@ -291,6 +291,11 @@ func runCloseRecv(rep *Report, cc closeCase) {
 			return 1 << 20
 		}
 	}
+	gone := cc.Row.Peer == "gone"
+	if gone {
+		// the peer does not wait for the echo: everything the library writes from now on fails
+		raw.In.CloseWrite(errors.New("write: connection reset by peer"))
+	}
 	raw.Out.Write(enc)
 	raw.Out.CloseWrite(nil)
 	ctx, cancel := context.WithTimeout(context.Background(), 5*time.Second)
@@ -311,7 +316,7 @@ func runCloseRecv(rep *Report, cc closeCase) {
 			rep.miss("received-close-not-reported", cc, fmt.Sprintf("err=%v", rerr))
 			return
 		}
-		if len(closes) != 1 || !bytes.Equal(closes[0].Payload, p) {
+		if !gone && (len(closes) != 1 || !bytes.Equal(closes[0].Payload, p)) {
 			rep.miss("received-close-not-echoed-verbatim", cc, fmt.Sprintf("%d close frames", len(closes)))
 		}
 	case "fail":
